@@ -214,6 +214,13 @@ func adversarial(thorough bool) [][]byte {
 				append(append([]byte{}, h...), 0x80, 0, 0, 0, 0, 0, 0, 0), append(append([]byte{}, h...), 0x80, 0, 0, 0, 0, 0, 0, 1, 1, 2))
 		}
 	}
+	// breadth without depth: k empty arrays / maps side by side (depth 2), also as a tag's content
+	for _, k := range []int{63, 64, 65, 200} {
+		for _, inner := range []byte{0x80, 0xa0} {
+			wide := append([]byte{0x98, byte(k)}, rep([]byte{inner}, k)...)
+			out = append(out, wide, append([]byte{0xc1}, wide...), append([]byte{0x82}, append(append([]byte{}, wide...), wide...)...))
+		}
+	}
 	if thorough {
 		out = append(out, rep(inflArr, 2000), rep(inflMap, 2000), rep([]byte{0x81}, 65536), rep([]byte{0xd8, 0x18}, 30000))
 	}
